@@ -163,6 +163,27 @@ func runProbes(t *testing.T, c *ev.Collector) {
 			expectIDs([]string{"hid"}, "SCAN", "k", "WHEREIN", "a-", "1", `{"x":1}`, "IDS"),
 		)
 	})
+	// fixed c3b3792: the quoted-expression form of WHERE did not know the z pseudo-field
+	probe(t, c, findExprZ, func() string {
+		must(t, "FLUSHDB")
+		must(t, "SET", "e", "p1", "POINT", "1", "1", "100")
+		must(t, "SET", "e", "p2", "POINT", "1", "1")
+		must(t, "SET", "e", "p3", "OBJECT", `{"type":"Feature","geometry":{"type":"Point","coordinates":[1,1,60]},"properties":{}}`)
+		must(t, "SET", "e", "p4", "OBJECT", `{"type":"Point","coordinates":[1,1,-5]}`)
+		must(t, "SET", "e", "s1", "STRING", "hello")
+		high, low := []string{"p1", "p3"}, []string{"p2", "p4", "s1"}
+		return first(
+			expectIDs(high, "SCAN", "e", "WHERE", "z", ">", "50", "IDS"),
+			expectIDs(high, "SCAN", "e", "WHERE", "z", "50", "+inf", "IDS"),
+			expectIDs(high, "SCAN", "e", "WHERE", "z > 50", "IDS"),
+			expectIDs(high, "SCAN", "e", "WHEREIN", "z", "2", "100", "60.0", "IDS"),
+			expectIDs(low, "SCAN", "e", "WHERE", "z", "<=", "0", "IDS"),
+			expectIDs(low, "SCAN", "e", "WHERE", "z <= 0", "IDS"),
+			expectIDs([]string{"p4"}, "SCAN", "e", "WHERE", "z == -5", "IDS"),
+			expectInt(2, "SCAN", "e", "WHERE", "z > 50 && z <= 100", "COUNT"),
+			expectInt(2, "WITHIN", "e", "WHERE", "z >= 60", "COUNT", "BOUNDS", "0", "0", "2", "2"),
+		)
+	})
 	// suspected: limits when the literal prefix ends in byte 0xff
 	probe(t, c, findFF, func() string {
 		must(t, "FLUSHDB")
